@@ -61,6 +61,8 @@ def evaluators(I, two_runs=False, twin=False, stop_in_batch=False):
         log1, log2 = os.path.join(d, "m.csv"), os.path.join(d, "o.csv")
         # a metric may be named like an attribute of the evaluator: subscripting still yields that metric's values
         me = MetricEvaluator(p1, {"m": metric, "w": metric2, "last": lambda s, **kw: 7.0 * clock[0], "period": lambda s, **kw: 0.5 * clock[0], "third": metric3}, log=log1)
+        # a second metric evaluator with its own period: evaluators keep separate histories
+        me2 = MetricEvaluator(p2, {"n": lambda s, **kw: 100.0 + clock[0]})
         oe = ObservableEvaluator(p3, [SigmaZ()], log=log2, num_samples=1)
         ocount = [0]
 
@@ -86,15 +88,16 @@ def evaluators(I, two_runs=False, twin=False, stop_in_batch=False):
         rec = LambdaCallback(on_epoch_end=on_end, on_batch_end=on_bend)
         data = torch.tensor([[0.0, 1.0], [1.0, 1.0], [1.0, 0.0]], dtype=torch.double)
         with contextlib.redirect_stdout(io.StringIO()):
-            st.fit(data, epochs=epochs, pos_batch_size=2, starting_epoch=start, callbacks=[rec, me, lg, oe], optimizer=_Opt)
+            st.fit(data, epochs=epochs, pos_batch_size=2, starting_epoch=start, callbacks=[rec, me, me2, lg, oe], optimizer=_Opt)
             if two_runs:
                 me.clear_history()
+                me2.clear_history()
                 oe.clear_history()
                 cleared = (len(me) == 0 and me.last == {} and len(me.epochs) == 0 and len(oe) == 0 and oe.last == {} and len(oe.epochs) == 0)
                 first = list(seen)
                 del seen[:]
                 st.stop_training = False
-                st.fit(data, epochs=epochs, pos_batch_size=2, starting_epoch=start, callbacks=[rec, me, lg, oe], optimizer=_Opt)
+                st.fit(data, epochs=epochs, pos_batch_size=2, starting_epoch=start, callbacks=[rec, me, me2, lg, oe], optimizer=_Opt)
         if two_runs and not cleared:
             return False, "clear_history left records behind: len %d/%d, last %r / %r" % (len(me), len(oe), me.last, oe.last)
         s0, e0, q1, q2, q3, k0 = int(start), int(epochs), int(p1), int(p2), int(p3), int(stop_at)
@@ -128,6 +131,9 @@ def evaluators(I, two_runs=False, twin=False, stop_in_batch=False):
                 return False, "last values %r / %r vs %r" % (me.get_value("m"), me.last, vals[-1])
         elif me.last != {}:
             return False, "last not empty: %r" % (me.last,)
+        want2 = [e for e in run if e % q2 == 0]
+        if len(me2) != len(want2) or list(me2.epochs) != want2 or me2.names != ["n"] or len(list(me2.n)) != len(want2):
+            return False, "second MetricEvaluator (period %d) recorded epochs %s, expected %s" % (q2, list(me2.epochs), want2)
         rows = list(csv.DictReader(open(log1)))
         allwant = ([e for e in first if e % q1 == 0] if two_runs else []) + want
         if [int(r["epoch"]) for r in rows] != allwant or [float(r["m"]) for r in rows] != [10.0 * (i + 1) for i in range(len(allwant))]:
